@@ -365,6 +365,7 @@ func init() {
 		Title:       "Flattening approximates every curve within the requested tolerance",
 		Explanation: "Decides the 'made only of straight segments' clause for every input and tolerance: by command-set typing over the whole package, Flatten's result can contain only MoveTo/LineTo/Close (plus such commands inherited from the receiver) and ReplaceArcs' result no ArcTo; the replace driver has the validated splice shape (each kind calls its own non-nil replacer, the record is cut before the replacement is joined, the cursor restarts at the re-attached remainder, so every remaining command passes through the switch); the consumers that rely on it (ToPDF/Tile arc panics, stride-4 scanner loops, the sweep's non-flat panic) only see such paths. Of XMonotone one clause: the second root of a cubic is re-mapped onto the remainder exactly when the curve was cut at the first (E11.remap-iff-split). NOT decided: the error bound, vertex order, same end points, termination as the tolerance goes to 0, X-monotonicity in general.",
 		Run: func(c *core.Ctx, r *core.Report) {
+			E10FlatRestTurningPoint(c, r)
 			E8Units(c, r) // degrees and radians: every property that handles arcs or rotations
 			E11ToleranceThreaded(c, r)
 			E11ArcFlagConsulted(c, r)
